@@ -22,6 +22,19 @@ type WriteOpts struct {
 	IntVia int
 	// Calls, when non-nil, receives a log of the calls made.
 	Calls *[]string
+
+	// arena, when non-nil, is one buffer out of which the lob arguments are cut as adjacent
+	// sub-slices with spare capacity (the way a caller chunks a larger buffer).
+	arena []byte
+}
+
+func (o *WriteOpts) lob(b []byte) []byte {
+	if o.arena == nil || len(o.arena)+len(b) > cap(o.arena) {
+		return b
+	}
+	st := len(o.arena)
+	o.arena = append(o.arena, b...)
+	return o.arena[st:len(o.arena)]
 }
 
 // LooksLikeSID mirrors the *documented* notion of "$n-shaped" text, generously: anything that
@@ -69,6 +82,18 @@ func Write(w ion.Writer, vals []*model.Value, o *WriteOpts) error {
 	if o == nil {
 		o = &WriteOpts{}
 	}
+	o.arena = nil
+	if o.Rnd != nil {
+		total := 0
+		model.Walk(vals, func(v *model.Value, _ int) {
+			if (v.Kind == model.Blob || v.Kind == model.Clob) && !v.IsNull {
+				total += len(v.Bytes)
+			}
+		})
+		if total > 0 && o.Rnd.Intn(2) == 0 {
+			o.arena = make([]byte, 0, total+32)
+		}
+	}
 	for _, v := range vals {
 		if err := writeValue(w, v, o, false); err != nil {
 			return err
@@ -91,13 +116,18 @@ func wrap(call string, err error) error {
 }
 
 func writeValue(w ion.Writer, v *model.Value, o *WriteOpts, inStruct bool) error {
-	if inStruct {
+	// the field name and the annotations of the next value may be announced in either order
+	nameLast := inStruct && len(v.Ann) > 0 && o.Rnd != nil && o.Rnd.Intn(3) == 0
+	setName := func() error {
 		if v.Field == nil {
 			return &WriteError{"harness", fmt.Errorf("struct child without field name in model")}
 		}
 		logCall(o, "FieldName("+v.Field.String()+")")
-		if err := w.FieldName(Tok(*v.Field)); err != nil {
-			return wrap("FieldName", err)
+		return wrap("FieldName", w.FieldName(Tok(*v.Field)))
+	}
+	if inStruct && !nameLast {
+		if err := setName(); err != nil {
+			return err
 		}
 	}
 	if len(v.Ann) > 0 {
@@ -117,6 +147,11 @@ func writeValue(w ion.Writer, v *model.Value, o *WriteOpts, inStruct bool) error
 			if err := w.Annotations(toks...); err != nil {
 				return wrap("Annotations", err)
 			}
+		}
+	}
+	if nameLast {
+		if err := setName(); err != nil {
+			return err
 		}
 	}
 	if v.Kind == model.Null {
@@ -163,10 +198,10 @@ func writeValue(w ion.Writer, v *model.Value, o *WriteOpts, inStruct bool) error
 		return wrap("WriteString", w.WriteString(v.S))
 	case model.Clob:
 		logCall(o, fmt.Sprintf("WriteClob(len %d)", len(v.Bytes)))
-		return wrap("WriteClob", w.WriteClob(v.Bytes))
+		return wrap("WriteClob", w.WriteClob(o.lob(v.Bytes)))
 	case model.Blob:
 		logCall(o, fmt.Sprintf("WriteBlob(len %d)", len(v.Bytes)))
-		return wrap("WriteBlob", w.WriteBlob(v.Bytes))
+		return wrap("WriteBlob", w.WriteBlob(o.lob(v.Bytes)))
 	case model.List, model.Sexp, model.Struct:
 		var begin, end func() error
 		name := ""
